@@ -60,6 +60,8 @@ def ev_term(e):
         return "TE (ETimeout %d%%N)" % e[1]
     if t == "P":
         return "TE (EPong %s)" % z(e[1])
+    if t == "N":
+        return "TN %d%%N" % e[1]
     if t == "C":
         return "TE EClose"
     if t == "O":
